@@ -18,6 +18,11 @@ var vC19Extra = []string{
 	"put (upper('a') + 'b', str(1 + 2))",
 	"remove 'a' + 'b'",
 	"delete where key between 'a' and 'b' limit 1",
+	// statements that fail while being parsed, checked or planned: their errors are bound and rendered
+	"select * where key ^= 'k' &", "select * where key in", "select key where !", "put ('k',", "select * where key = 'a' |",
+	"select * where (key = 'a'", "select * where key between 'a'", "select upper(key", "remove", "select * where key in ('a',",
+	"select * where key = 1", "select * where", "select key, value where key = 'a' order by", "select * where key = 'a' limit",
+	"delete where", "select * where key = 'a' group by", "put", "select json(value)[ where key = 'a'",
 }
 
 func vC19Stmt(i int) string {
